@@ -1,5 +1,6 @@
 // govc:pkg .
 // govc:bound second test: 4 queries with two or three analytic fields x 10 (thorough: 40) feeds, every column compared with the same field queried alone; first test: 14 analytic SELECT items x 40 (thorough: 160) random feeds of 12 rows over 3 partitions (NULL values included): each partition's output sequence interleaved vs. fed alone, EmitSync vs. Emit + synchronous sink, and lag / acc_sum / acc_count / acc_max / latest against their definitions
+// govc:also C12
 // Bounded stand-in (NOT a proof) for the wiring above the state machines under contract (partition key derivation, engine
 // dispatch, projection): partitions must not influence each other and both API paths must agree.
 package streamsql
